@@ -77,7 +77,7 @@ func C07(r *drv.Run) {
 		nReaderOps = 600000
 		rounds = 4
 	}
-	r.Rule = "(1) differential: RunFiles([f], NOTHING) == Run(string(bytes of f)) on every field but Filename, for 16 programs forcing forward scans, one-byte-back reads (line/word anchors), far-back seeks (lazy scan to EOF that fails; greedy loop over a ~1500 byte run straddling offset 4096 that backtracks) x 17 file sizes (0, 1, 2, around 2048/4096/6144/8192, 12 000, 20 000) with needles planted around every multiple of 2048, also several files (an empty one among them) in one call, and sessions in which the same path is rewritten with different bytes of the same size and searched again within one process; (2) online monitor (hook H4): every read the engine issues to the backing store is compared with the ground-truth bytes at the offset the Reader believes it is at; re-centres forward/backward, reads spanning a 4096 boundary and reads of the last byte are counted; (3) direct driver: long random Seek/Read/ReadAt/anchor-pair histories on files.ReaderFromFile vs ReaderFromString vs the bytes, offsets biased to 0, window edges, size-1, size. Non-trivial = engine case with >= 1 match and >= 1 window re-centre, or reader history with >= 1 backward re-centre; distinct by (program, size, content seed)."
+	r.Rule = "(1) differential: RunFiles([f], NOTHING) == Run(string(bytes of f)) on every field but Filename, for 16 programs forcing forward scans, one-byte-back reads (line/word anchors), far-back seeks (lazy scan to EOF that fails; greedy loop over a ~1500 byte run straddling offset 4096 that backtracks) x 17 file sizes (0, 1, 2, around 2048/4096/6144/8192, 12 000, 20 000) with needles planted around every multiple of 2048, also the same files reached through symbolic links, several files (an empty one among them) in one call, and sessions in which the same path is rewritten with different bytes of the same size and searched again within one process; (2) online monitor (hook H4): every read the engine issues to the backing store is compared with the ground-truth bytes at the offset the Reader believes it is at; re-centres forward/backward, reads spanning a 4096 boundary and reads of the last byte are counted; (3) direct driver: long random Seek/Read/ReadAt/anchor-pair histories on files.ReaderFromFile vs ReaderFromString vs the bytes, offsets biased to 0, window edges, size-1, size. Non-trivial = engine case with >= 1 match and >= 1 window re-centre, or reader history with >= 1 backward re-centre; distinct by (program, size, content seed)."
 	r.Assumptions = []string{"the online read monitor trusts only the bytes the harness itself wrote to the file"}
 	dir := filepath.Join(r.WorkDir, "c07")
 	os.MkdirAll(dir, 0o755)
@@ -97,6 +97,21 @@ func C07(r *drv.Run) {
 				return
 			}
 			files = append(files, fcase{p, b, sz})
+		}
+	}
+	// the same bytes reached through a symbolic link (what a pattern over a directory with links hands to RunFiles):
+	// a short relative target for a large file, a long absolute target for a small one
+	nreal := len(files)
+	for k := 0; k < nreal; k += 3 {
+		f := files[k]
+		lp := filepath.Join(dir, fmt.Sprintf("link%d.txt", k))
+		target := filepath.Base(f.path)
+		if f.size < 100 {
+			target = f.path
+		}
+		if os.Symlink(target, lp) == nil {
+			files = append(files, fcase{lp, f.content, f.size})
+			r.Count("files_reached_through_a_symbolic_link", 1)
 		}
 	}
 	// engine cases
